@@ -3,7 +3,8 @@
 import json, sys
 
 BLOCK_NOTE = "Trusted: go/ssa translation + gosym/asmsym executors (validated on every run by native replay of solver models, and by `vcheck selftest` which runs the executor as a plain interpreter against native execution), z3 5.1.0/4.8.12, the reference models in harness/ref. Bounds and what lies outside them are in the evidence file."
-FRAME_NOTE = "Sequential operation only (concurrency = 1: goroutines/channels are not encoded). Trusted: go/ssa translation + gosym executor (witnesses replayed natively every run), z3, the reference frame parser / block decoder / XXH32 in harness/ref; sync.Pool, fmt.Errorf, block hashes are modelled as described in DESIGN.md section 2."
+CONC_NOTE = "Goroutines, channels, sync.Mutex/WaitGroup/Pool are modelled by the executor (engine/conc.go): one goroutine runs at a time, the schedule is a vector of symbolic delay inputs bounded per job (delay-bounded scheduling), data races are found by a happens-before check over the explored runs. Trusted in addition to the rest: that model (validated by known-answer programs in `vcheck selftest` and by native replay under the Go race detector)."
+FRAME_NOTE = "Sequential operation (concurrency = 1) unless stated. Trusted: go/ssa translation + gosym executor (witnesses replayed natively every run), z3, the reference frame parser / block decoder / XXH32 in harness/ref; sync.Pool, fmt.Errorf, block hashes are modelled as described in DESIGN.md section 2."
 CHECKS = {
  "C01": dict(
   text="Bounded symbolic model checking of the real compressors and decoders: for every source content at each length in the bound (and the periodic long-match family) the fast and HC compressors (fresh, reused with arbitrary prior tables, pooled) are executed symbolically, the block is decoded by the real decoder (portable Go and amd64 assembly) and the result compared with the source. Verdicts are SMT unsat answers / syntactic identities; solver models are replayed natively.",
@@ -41,8 +42,8 @@ CHECKS = {
   technique="bounded symbolic execution of go/ssa + SMT (z3), inductive step on streaming state, native replay",
   design="DESIGN.md section 5 C13"),
  "C14": dict(
-  text="Block level 2-safety by self-composition: the same symbolic source, depth and destination size are compressed from two different prior states (fresh object, reused object with arbitrary table contents given as SMT arrays, dirty object in the pool) and count, error and bytes must agree. Frame-level/schedule independence is not claimed.",
-  note=BLOCK_NOTE + " Only the block-level clause of C14 is claimed; concurrency and scheduling are outside.",
+  text="Block level 2-safety by self-composition: the same symbolic source, depth and destination size are compressed from two different prior states (fresh object, reused object with arbitrary table contents given as SMT arrays, dirty object in the pool) and count, error and bytes must agree. Frame level: the same input split differently across Write calls gives identical frames, and a Writer with ConcurrencyOption 2..4 driven through 13 call sequences emits, under every schedule within the delay bound, exactly the bytes of the sequential Writer.",
+  note=BLOCK_NOTE + " " + CONC_NOTE + " Content is concrete in the concurrent runs.",
   technique="self-composition under bounded symbolic execution of go/ssa + SMT (z3), native replay",
   design="DESIGN.md section 5 C14"),
  "C02": dict(
@@ -61,18 +62,23 @@ CHECKS = {
   technique="bounded symbolic execution of go/ssa with symbolic cut position + SMT (z3), native replay",
   design="DESIGN.md section 5 C06"),
  "C07": dict(
-  text="Arbitrary symbolic streams (as C05) with implicit obligations on every path: no escaping panic, every loop inside its unwinding bound, call depth bounded, every single allocation below the declared block maximum whatever the symbolic field values; invalid-magic and skippable-magic clauses as assertions; repetition of legacy magics / empty skippable frames with the call depth required not to grow (replayed natively with 3*10^7 repetitions). The 'never blocks forever' clause under concurrency is not claimed.",
-  note=FRAME_NOTE + " Partial claim: sequential decoding only.",
+  text="Arbitrary symbolic streams (as C05) with implicit obligations on every path: no escaping panic, every loop inside its unwinding bound, call depth bounded, every single allocation below the declared block maximum whatever the symbolic field values; invalid-magic and skippable-magic clauses as assertions; repetition of legacy magics / empty skippable frames with the call depth required not to grow (replayed natively with 3*10^7 repetitions). The same symbolic streams (up to 9/10 bytes after a valid header) are also read by a Reader with ConcurrencyOption(2) under every schedule with at most one delay: no deadlock, no panic in a library goroutine.",
+  note=FRAME_NOTE + " " + CONC_NOTE,
   technique="bounded symbolic execution of go/ssa with unwinding/depth/allocation obligations + SMT (z3), native replay",
   design="DESIGN.md section 5 C07"),
+ "C08": dict(
+  text="The real Writer and Reader pipelines (ordering goroutine, per-block goroutines, reader and collector goroutines) are executed by the symbolic executor with goroutines, channels, mutexes, wait groups and pools modelled; the schedule is a vector of symbolic delay inputs enumerated by the solver (all schedules with at most 2, thorough 3, delays). On every explored run: no data race (happens-before check over all memory accesses), no access to a buffer that is in a pool, no deadlock, every call returns, nothing left alive after Close / end of stream / error, no callback after Close, blocks in submission order and a well-formed frame; call sequences with Flush, Reset, reuse after Close, double Close, ReadFrom, sink and source faults, damaged frames, hostile symbolic streams. Counterexamples are re-executed under the recorded schedule and replayed natively under the Go race detector.",
+  note=CONC_NOTE + " Bounded: delays, <= 3 blocks in flight, 64 KiB blocks, concurrency 2..4; schedule-dependent counterexamples that only the executor reproduces are reported as such.",
+  technique="bounded symbolic execution of go/ssa with modelled goroutines/channels, symbolic delay-bounded schedules + SMT (z3), happens-before race check, native replay under -race",
+  design="DESIGN.md section 5 C08"),
  "C09": dict(
   text="Every frame image produced in the C02 exploration (as terms over the symbolic input) is parsed by a reference frame parser written from the specification: accepted, nothing after it, version 01, reserved bits 0, header checksum, configured content size, flags as configured, blocks within the maximum, block checksum over the stored bytes, content checksum, end mark, content equal to the input; legacy: magic + plain blocks.",
   note=FRAME_NOTE + " The incompressible-8-MiB legacy block case is not reached.",
   technique="bounded symbolic execution of go/ssa + reference-parser oracle + SMT (z3), native replay",
   design="DESIGN.md section 5 C09"),
  "C15": dict(
-  text="The index of the failing call of the underlying writer (or reader) is a symbolic variable ranging over all calls of the fault-free run of 21 frame templates: the injected error is returned (never io.EOF), what had reached the sink is a prefix of the fault-free output, delivered bytes are a prefix of the content; decoding under four source fragmentation modes equals the unfragmented result.",
-  note=FRAME_NOTE,
+  text="The index of the failing call of the underlying writer (or reader) is a symbolic variable ranging over all calls of the fault-free run of 21 frame templates: the injected error is returned (never io.EOF), what had reached the sink is a prefix of the fault-free output, delivered bytes are a prefix of the content; decoding under four source fragmentation modes equals the unfragmented result. Concurrent operation: sink failing at call 0..7 of six call sequences, ReadFrom source failing, concurrent Reader with a failing source, under every schedule within the delay bound.",
+  note=FRAME_NOTE + " " + CONC_NOTE,
   technique="bounded symbolic execution of go/ssa with symbolic fault index + SMT (z3), native replay",
   design="DESIGN.md section 5 C15"),
  "C16": dict(
@@ -98,7 +104,6 @@ CHECKS = {
 }
 
 NOT_APPLICABLE = {
- "C08": "quantifies over goroutine schedules and data races; no symbolic engine for Go concurrency in this image and schedule enumeration is not a solver verdict (DESIGN.md section 6)",
  "C20": "whole-program file I/O and flag parsing of cmd/lz4c with third-party modules; cannot be encoded within reach (DESIGN.md section 6)",
 }
 
@@ -144,7 +149,7 @@ def main():
             "kind_free_text": "gosym: path-forking symbolic executor over go/ssa (x/tools v0.29.0) with decision-prefix replay; asmsym: symbolic executor for decode_amd64.s; SMT back end z3 4.8.12 over a pipe; native replay of solver models through go test -overlay",
         }],
         "checks": checks,
-        "notes": "All claims are bounded (see evidence bounds/outside_bounds); frame-level claims are for concurrency = 1 and amd64 (asm and noasm).",
+        "notes": "All claims are bounded (see evidence bounds/outside_bounds); frame-level claims are for concurrency = 1 unless the check says otherwise (C07, C08, C14, C15 include concurrent operation under delay-bounded schedules) and for amd64 (asm and noasm).",
         "not_applicable": na,
     }
     json.dump(m, open("/verif/MANIFEST.json", "w"), indent=1)
